@@ -1386,7 +1386,7 @@ fn run(opts: &Opts, acc: &mut Acc) {
 
     // (5) random
     let n = match (opts.tier, opts.is_dbg()) {
-        (Tier::Quick, _) => 40_000,
+        (Tier::Quick, _) => 150_000,
         (_, false) => 1_200_000,
         (_, true) => 100_000,
     };
